@@ -62,6 +62,7 @@ def run(ctx, rep):
     rep.assume("NUL inside an argument is outside the property's alphabet; I/O errors are not modelled")
     _codecs.fresh_output_files(F, rep, "C04.fresh-file", ["compiler"], 1)
     entry_key(F, rep)
+    log_arguments(F, rep)
     rep.assume("a character not compared against any constant by the reader behaves like the class representative 'x' (the reader touches "
                "characters only through comparisons with constants and char::is_whitespace)")
     try:
@@ -155,3 +156,51 @@ def run(ctx, rep):
         ok = all(x.matches(("bytecode::instruction::split_string", "alloc::boxed::Box::new")) for x in o) or not o
         rep.ob("C04.loader", "loaded instruction keeps the tokens split_string produced", "ok" if ok else "violated",
                "arguments derive from %s" % [mir.short(x.callee()) for x in o], c.span, fn=gf.path)
+
+
+def log_arguments(F, rep):
+    """`mscript run` installs a logger (max level Trace); `execute` installs none, so the arguments of log::trace! / debug! in the interpreter are
+    evaluated under `run` only.  They must therefore be free of anything that can fail or change state -- in this code base: of borrows of the
+    interpreter's RefCell / GcCell cells (a borrow that conflicts with a live guard panics) -- or the two ways of running a program differ."""
+    from props import _borrows
+    C = _borrows.Cells(F, "bytecode")
+    touching = set()
+    for table in (C.direct_mut, C.direct_sh):
+        touching |= C.closure(set(table))
+    n, hits = 0, []
+    for f in F.crates["bytecode"].fns:
+        logs = [c for c in f.calls() if c.callee().startswith("log::__private_api::log") and not f.blocks[c.bb].get("cleanup")]
+        if not logs:
+            continue
+        doms = f.dominators()
+        for L in logs:
+            n += 1
+            # the `level <= max_level()` test of this log statement: the nearest dominating switch on a PartialOrd::le result tagged with the log macro
+            gate = None
+            for c in f.calls():
+                if c.callee().endswith("PartialOrd::le") and any("log" in m for m in (c.t.get("mc") or [])) and c.bb in doms.get(L.bb, ()) and c.target is not None:
+                    if gate is None or gate.bb in doms.get(c.bb, ()):
+                        gate = c
+            if gate is None:
+                continue
+            der = f.derived([gate.dst["l"]])
+            sws = [x for x in rules.bool_switches(f, der) if x[3] is not None and x[0] in doms.get(L.bb, ())]
+            if not sws:
+                continue
+            bb, t_t, f_t, pol = sws[-1]
+            enabled = t_t if pol else f_t
+            region = {b for b in f.reachable(enabled) if L.bb in f.reachable(b) and enabled in doms.get(b, ())}
+            for c in f.calls():
+                if c.bb in region and c is not L and not f.blocks[c.bb].get("cleanup"):
+                    d = c.t["func"].get("def") or ""
+                    cal = c.callee()
+                    if d.startswith(_borrows.CELL_PREFIXES) and d.split("::")[-1] in _borrows.MUT_METHODS + _borrows.SH_METHODS or cal in touching:
+                        hits.append((f, L, c))
+    for f, L, c in hits:
+        rep.ob("C04.log-arguments", "%s: an argument of the log statement at %s borrows an interpreter cell (%s)" % (mir.short(f.path), L.span, mir.short(c.callee())),
+               "violated", "evaluated under `run` (logger installed) but not under `execute`: a conflict with a live guard aborts one way of running the program and not the other",
+               c.span, fn=f.path, key="C04.log-arguments|%s|%s" % (mir.short(f.path), mir.short(c.callee())))
+    if not hits:
+        rep.ob("C04.log-arguments", "no argument of a log statement in the interpreter borrows a cell (%d log statements)" % n, "ok", "", None,
+               key="C04.log-arguments|summary")
+    rep.floor("C04.log-arguments log statements in crate bytecode", n, 15)
